@@ -40,6 +40,9 @@ M('c04_hash_order_markers', 'C04', 'cell_type_mapper/type_assignment/marker_cach
 M('c04_parent_peeks_at_live_buffer', 'C04', 'cell_type_mapper/diff_exp/precompute_from_anndata.py',
   "            p.start()\n\n            process_list.append(p)\n",
   "            p.start()\n\n            process_list.append(p)\n            if len(process_list) > 1:\n                open(buffer_path_list[-2], 'rb').close()\n")
+M('c04_drain_never_shrinks', 'C04', 'cell_type_mapper/utils/csc_to_csr_parallel.py',
+  "    while len(process_list) > 0:\n        process_list = winnow_process_list(process_list)\n",
+  "    while len(process_list) > 0:\n        winnow_process_list(list(process_list))\n")
 
 # ---- C14 ------------------------------------------------------------------------------------
 M('c14_negative_code_ok', 'C14', 'cell_type_mapper/utils/multiprocessing_utils.py',
